@@ -153,6 +153,7 @@ def prefix_idiom(ctx: Ctx, f, lst: str, nump: str, frame=None, env=None, _depth:
             if not counts_len:
                 return None, "the loop does not count with enumerate(...) or len(<id list>)"
         src = it.args[0] if enumerated else it
+        src = ctx.vals.resolve(frame, src)  # `newest_first = reversed(self._tasks_running)`
         rv = reversed_running(src)
         if rv is None:
             return None, f"cannot classify the source {ast.unparse(src)}"
